@@ -2,6 +2,7 @@ package props
 
 import (
 	"bytes"
+	"encoding/json"
 	"fmt"
 	"io"
 	"os"
@@ -262,7 +263,65 @@ func c15(r *vlib.Run) int {
 		c15Scenario1(r, scs[si], maxPoints)
 	})
 	c15Overlap(r)
+	c15NonCumulative(r)
 	return 10
+}
+
+type c15NonCumCase struct {
+	Groups int `json:"groups"`
+	RunMs  int `json:"run_ms"`
+}
+
+type c15NonCumResult struct {
+	Err       string `json:"err,omitempty"`
+	Status    int    `json:"status"`
+	Samples   int    `json:"samples"`
+	Bad       int    `json:"bad"`
+	Why       string `json:"why,omitempty"`
+	Bytes     int    `json:"bytes,omitempty"`
+	FinalRows int    `json:"final_rows"`
+	TmpLeft   bool   `json:"tmp_left,omitempty"`
+}
+
+// c15NonCumulative: the outfile of a continuous job (the server runs the
+// mapreduce client in non-cumulative mode: every interval's result replaces the
+// outfile). In worker processes the client follows a growing file with tens of
+// thousands of groups, is cancelled at various points relative to its report
+// interval (as on a day change, the process lives on) and a watcher re-reads
+// the outfile every 2 ms: it must always be a complete result.
+func c15NonCumulative(r *vlib.Run) {
+	n := r.N(6, 40)
+	var cases []interface{}
+	for i := 0; i < n; i++ {
+		cases = append(cases, c15NonCumCase{Groups: 30000 + 5000*(i%3), RunMs: 3600 + 170*i})
+	}
+	// a delay at 4 % of the rows written stretches every write of the outfile to
+	// a few hundred ms, so that the end of the job falls into a write (or a write
+	// into the end of the job) in most runs
+	results, crashes := r.RunBatchesOpts("c15noncum", cases, vlib.BatchOpts{Size: 1, Workers: 6,
+		Env: []string{"VERIF_POINTS=out.row=sleep(1)~0.04", fmt.Sprintf("VERIF_POINTS_SEED=%d", r.Seed)}})
+	for _, cr := range crashes {
+		r.Violation("continuous-job-client-crashed", map[string]interface{}{"stderr": vlib.Trunc(string(cr.Result.Stderr), 2500), "exit": cr.Result.Exit})
+	}
+	for i, raw := range results {
+		if raw == nil {
+			continue
+		}
+		var res c15NonCumResult
+		json.Unmarshal(raw, &res)
+		r.Eval(fmt.Sprintf("noncum|%d", i))
+		r.Count("continuous_job_runs", 1)
+		r.Count("continuous_job_watcher_samples", res.Samples)
+		r.Max("continuous_job_rows_left_behind_max", res.FinalRows)
+		if res.Err != "" {
+			r.Violation("continuous-job-did-not-run", map[string]interface{}{"error": res.Err, "case": cases[i]})
+			continue
+		}
+		if res.Bad > 0 {
+			r.Violation("continuous-job-outfile-half-written", map[string]interface{}{"why": res.Why, "bytes": res.Bytes, "bad_samples": res.Bad,
+				"samples": res.Samples, "case": cases[i]})
+		}
+	}
 }
 
 // c15Overlap: a large result whose final write takes long enough to coincide
